@@ -303,13 +303,14 @@ func shapeStreams(thorough bool) []stream {
 		}})
 		// deviation 2
 		vset := reducedValues
-		if thorough {
+		primary := map[string]bool{"actor": true, "post:Note": true, "activity:Announce": true, "collection:OrderedCollection": true, "link:Link": true}[b.Kind]
+		if thorough && primary {
 			vset = nil
 			for k := range values(b.Doc) {
 				vset = append(vset, k)
 			}
 		}
-		if !thorough && !map[string]bool{"actor": true, "post:Note": true, "activity:Announce": true, "collection:OrderedCollection": true, "link:Link": true}[b.Kind] {
+		if !thorough && !primary {
 			continue // quick: pairs on one baseline per kind
 		}
 		np := int64(len(fs)) * int64(len(fs)) * int64(len(vset)) * int64(len(vset))
@@ -361,7 +362,6 @@ func markupStreams(thorough bool) []stream {
 	html(gen.HTMLReps, 3, "html-reps-3")
 	if thorough {
 		html(gen.HTMLLabels, 3, "html-full-3")
-		html(gen.HTMLReps, 4, "html-reps-4")
 	}
 	lines := func(name, mt string, alpha []string, n int, sep string) {
 		sp := gen.LineSpace{Alpha: alpha, N: n, Sep: sep}
@@ -456,7 +456,7 @@ func chainStreams(thorough bool) []stream {
 func main() {
 	r := ev.New("C06", "exploration",
 		"(1) JSON shapes: 21 baseline documents (actor, 7 post types, 4 activities, 4 collection kinds, 5 link kinds) with every field replaced by each of 30 values (absent, null, booleans, numbers incl. negative/fractional/2^53+1/2^63/2^64/1e300, strings, arrays, objects, self-nesting, 40-deep array), "+
-			"all single deviations, and all pairs of fields over 8 values on one baseline per kind (quick) / over 30 values on every baseline (thorough); (2) markup forests (HTML <=2 nodes over 33 labels, <=3/4 nodes over 14 labels; gemtext/Markdown/plaintext line sequences); (3) nesting chains of 15 element families x inner content, "+
+			"all single deviations, and all pairs of fields over 8 values on one baseline per kind (quick) / over 30 values on one baseline per kind and 8 values on the others (thorough); (2) markup forests (HTML <=2 nodes over 33 labels, 3 nodes over 14 labels (quick) / over all 33 labels (thorough); gemtext/Markdown/plaintext line sequences); (3) nesting chains of 15 element families x inner content, "+
 			"depths in increasing order up to 120 while the document stays < 4 kB; every case built through pub.New and followed by String/Preview at widths {-5,-1,0,1,2,3,4,5,8,9,80,200}, Name, Timestamp, Parents(0..3), Children().Harvest(0..3,0..2), SelectLink(min,-1,0,1,2,3,max), Media/ProfilePic/Banner/Creators/Recipients/Actor/Target; "+
 			"distinct_nontrivial = cases whose document differs from its baseline")
 	w := world.New() // every fetch is answered with 404
